@@ -140,10 +140,12 @@ pub fn check_program(ops: &[ROp], heap: &[RVal], st: &mut Stats) -> Check {
         Err(p) => viol!("vm-panic", "program [{}] panicked: {:?}", refvm::show_ops(ops), p),
     };
     let r2 = catch(|| cov.debug_execute(&real_heap)).ok().flatten();
-    if r1 != r2 {
+    // compared in flattened form: the implementation's own equality on its rope-backed byte strings walks the tree
+    // once per element (13 s for a 100 MB result that a 264-byte covenant of weight 1583 builds by doubling)
+    let got = r1.as_ref().map(refvm::from_real_value);
+    if got != r2.as_ref().map(refvm::from_real_value) {
         viol!("nondeterministic", "program [{}] gave two different results", refvm::show_ops(ops));
     }
-    let got = r1.as_ref().map(refvm::from_real_value);
     if got != expected {
         let sig = format!("semantics-{}", first_divergence_hint(ops));
         viol!(
